@@ -13,6 +13,7 @@ import (
 	sdkmath "cosmossdk.io/math"
 	"github.com/cosmos/cosmos-sdk/codec"
 	sdk "github.com/cosmos/cosmos-sdk/types"
+	"github.com/cosmos/cosmos-sdk/types/tx/signing"
 	banktypes "github.com/cosmos/cosmos-sdk/x/bank/types"
 	"github.com/ethereum/go-ethereum/common"
 	"pgregory.net/rapid"
@@ -26,7 +27,7 @@ import (
 )
 
 type C17ChainTx struct {
-	Kind int    `json:"kind"` // 0 cosmos send, 1 eth transfer, 2 cosmos send with too small a fee (refused), 3 cosmos send of more than the balance (fails after the ante handler)
+	Kind int    `json:"kind"` // 0 cosmos send, 1 eth transfer, 2 cosmos send with too small a fee (refused), 3 cosmos send of more than the balance (fails after the ante handler), 4 cosmos send signed as legacy EIP-712 typed data (Web3 extension route)
 	From int    `json:"from"`
 	Gas  uint64 `json:"gas"`
 }
@@ -64,7 +65,7 @@ func genC17Chain(t *rapid.T) C17ChainCase {
 		nt := rapid.SampledFrom([]int{0, 1, 1, 2, 3, 5}).Draw(t, "ntx")
 		for i := 0; i < nt; i++ {
 			x := C17ChainTx{From: rapid.IntRange(0, c17ChainAccts-1).Draw(t, "from")}
-			x.Kind = rapid.SampledFrom([]int{0, 0, 0, 1, 1, 2, 3}).Draw(t, "kind")
+			x.Kind = rapid.SampledFrom([]int{0, 0, 0, 1, 1, 2, 3, 4, 4}).Draw(t, "kind")
 			switch rapid.IntRange(0, 5).Draw(t, "gas-kind") {
 			case 0:
 				x.Gas = 200000
@@ -183,7 +184,15 @@ func runC17Chain(st *ev.Stats, c C17ChainCase) string {
 					amt = new(big.Int).Mul(oneISLM, big.NewInt(1000000000000000))
 				}
 				msg := banktypes.NewMsgSend(from.Addr, sink.Addr, sdk.NewCoins(sdk.NewCoin(chain.Denom, sdkmath.NewIntFromBigInt(amt))))
-				bz = txb.CosmosTx(from, txb.Cosmos{Msgs: []sdk.Msg{msg}, Gas: x.Gas, Fee: fee, ChainID: chain.ChainID, AccNum: num, Seq: seq})
+				cb := txb.Cosmos{Msgs: []sdk.Msg{msg}, Gas: x.Gas, Fee: fee, ChainID: chain.ChainID, AccNum: num, Seq: seq}
+				if x.Kind == 4 {
+					cb.Mode = signing.SignMode_SIGN_MODE_LEGACY_AMINO_JSON
+					b, err := txb.EIP712(from, cb, 11235, true)
+					must(err)
+					bz = txb.Encode(b)
+				} else {
+					bz = txb.CosmosTx(from, cb)
+				}
 			}
 			before := seqOf(from)
 			res := n.DeliverTx(bz)
